@@ -32,12 +32,16 @@ def crc_step_exhaustive(tmp, tier, seed, goenv):
 
 
 PROP = {
-    "coq": ["C06"],
+    "coq": ["C06", "C06b"],
     "extra": [crc_step_exhaustive],
     "exhaustive": True,
     "rule": "CRC: the complete one-byte transition function (2^24 pairs) is compared exhaustively; whole-string, "
-            "chunked and acceptance-test entry points on structured and random strings of length 0..300.",
+            "chunked and acceptance-test entry points on structured and random strings of length 0..300. Client level (scenario rtuflip): valid RTU replies of random valid requests under single-bit flips (all for frames <= 16 bytes, strided above), 24 random bit pairs, 16 random bursts <= 16 bits, 4 random CRC fields, plus the crafted F8 family; each followed by a clean exchange; P = first call not a success and second call a success.",
     "assumptions": [],
 }
 
-CLAIM = {'text': 'Coq theorems: table-driven checksum = bit-serial CRC-16/MODBUS for every byte string; chunk independence; GF(2) linearity; acceptance iff trailer = CRC; every single-bit error, burst <= 16 bits (any length) and double-bit error (frames <= 256 bytes) has non-zero syndrome, hence a corrupted valid frame is never accepted. The complete 2^24-entry step function of the real code is compared with model and reference on every run.', 'note': 'Finite facts are vm_compute sweeps over proved-complete enumerators (2^8, 2^16, 2^19, 64x255). Client-level clauses (never success / recovery) rest on the RTU client model (see level text when extended). Trusted: kernel VM, extraction, harness, VerifCRC* hooks.', 'technique': 'Coq proof (finite sweeps lifted by forallb_forall, linearity, induction) + exhaustive differential correspondence of the CRC step function'}
+CLAIM = {
+  "text": "Coq theorems: table-driven checksum = bit-serial CRC-16/MODBUS for every byte string; chunk independence; GF(2) linearity; acceptance iff trailer = CRC; every single-bit error, burst <= 16 bits (any length) and double-bit error (frames <= 256 bytes) has non-zero syndrome; every frame sent ends with that CRC; for EVERY request, valid reply and such corruption (followed by anything) the client call is not a success, whatever length the corrupted bytes make the receiver infer (c06_never_success); a mismatching CRC field is a bad-CRC error; after a rejection that triggers the resync flush the next exchange succeeds (c06_recovery). The unconditional recovery clause is refuted in Coq for the code as it is (c06_recovery_refuted = known finding F8). The complete 2^24-entry step function of the real code and corrupted-reply/clean-exchange pairs on the real RTU client are compared with the model on every run.",
+  "note": "Finite facts are vm_compute sweeps over proved-complete enumerators (2^8, 2^16, 2^19, 64x255). F8 (next exchange fails after a corrupted reply whose prefix parses as a complete CRC-valid frame) is a recorded known finding, reported as KNOWN-FINDING, identified by the model-side tag for that input family. Trusted: kernel VM, extraction, harness, scripted connection, VerifCRC* hooks.",
+  "technique": "Coq proof (finite sweeps lifted by forallb_forall, linearity, soundness of the RTU client) + exhaustive differential correspondence of the CRC step function + corrupted-reply correspondence",
+}
